@@ -10,7 +10,7 @@ from litedram.frontend.axi import LiteDRAMAXIPort
 from litedram.frontend.dma import LiteDRAMDMAReader, LiteDRAMDMAWriter
 
 from ..engine import Sim
-from ..agents import NativeMemSlave, Violations, word_of, init_word, StreamDriver, StreamSink, Pattern
+from ..agents import stuck, NativeMemSlave, Violations, word_of, init_word, StreamDriver, StreamSink, Pattern
 from .c07 import gen_pattern, gen_extra
 
 ID = "C12"
@@ -185,6 +185,8 @@ def run(scn):
     while cyc < cap:
         sim.step()
         cyc += 1
+        if not cyc & 63 and stuck(sim, cyc):
+            break       # no handshake anywhere for 20000 cycles: the run is stuck, do not spin to the cap
         if kind == "reader":
             o = drv.n - len(out)
             if o > stats["max_outstanding"]:
